@@ -69,7 +69,7 @@ CHECKS = {
         note="Premise L*U = A comes from C03, proved there for all four decompositions. "
              "Trusted: Coq kernel, extraction, harness, Zp class.",
         technique="Coq proof (induction over substitution rows, any field) + exact-field differential tie",
-        ref="7 C04"),
+        ref="6 C04"),
     "C05": dict(
         text="Coq theorems over the model of the integrator templates (policies as parameters, induction over every "
              "accept/reject history): at every Rosenbrock attempt, first or retry, separate-L/U or in-place, the matrix "
